@@ -315,8 +315,18 @@ func runLegacy(c *TrieCase) (tr trace) {
 // ---- abstract map semantics + independent spec roots at every observation point ------------
 
 func specTrace(c *TrieCase) (roots []string, final map[string]felt.Felt) {
+	return specTraceWith(c, indHashFnOf(c.Hash)) // the oracle does not use core/crypto
+}
+
+// primitiveIsCause: the real roots differ from the protocol's, but they ARE the commitment of the map
+// when it is computed with juno's own hash function — the trie logic is fine, the primitive is not.
+func primitiveIsCause(c *TrieCase, real []string) bool {
+	js, _ := specTraceWith(c, hashFnOf(c.Hash))
+	return firstDiff(real, js) < 0
+}
+
+func specTraceWith(c *TrieCase, hf crypto.HashFn) (roots []string, final map[string]felt.Felt) {
 	m := map[string]felt.Felt{}
-	hf := hashFnOf(c.Hash)
 	obs := func() {
 		r := specRoot(m, c.Height, hf)
 		roots = append(roots, feltHex(&r))
